@@ -1,7 +1,7 @@
 (* C16 — Backward navigation and offsets are consistent with forward order.
    Property theorems only; closed by lemmas of proofs/IterP.v (journal iterator across chunk edges, both directions,
    direction switches), proofs/MixerP.v and proofs/OffsetP.v (cursor with filter as a list cursor, Offset, page). *)
-From LR Require Import lib.Base model.Iter model.Mixer model.Offset proofs.MixerP proofs.IterP proofs.OffsetP lib.CursorK.
+From LR Require Import lib.Base model.Iter model.Mixer model.Offset proofs.MixerP proofs.IterP proofs.OffsetP lib.CursorK proofs.OffsetStoreP.
 Open Scope Z_scope.
 
 (* ---- one partition, any chunk layout, any WHERE filter (no RANGE): POSITION tail OFFSET -k then a forward read
@@ -23,7 +23,7 @@ Proof.
   rewrite (lr_pos_head j W), rest_at_fwd_neg in I0 by lia.
   destruct (query_positive leaf_rest (leaf_ok false) false f sett_l (leaf_get_spec false) (leaf_next_spec false) (sett_l_get false)
               _ _ fuel 0 (length (flat j)) I0) as (c1 & ps1 & E1); [unfold itm; rewrite map_length; exact Hf|].
-  cbn [iter_step Z.of_nat] in E1.
+  cbn [skipn Z.of_nat] in E1.
   exists (mkCur (MLeaf g (LR j (jit_at 0 0))) f None false 1), (mkCur (MLeaf g (LR j (mkJit MaxU64 MaxU32 None false))) f None false 1).
   exists c1, ps1, c2, ps2, (filter (acc f) (itm g (flat j))).
   split; [reflexivity|]. split; [reflexivity|]. split; [|exact E2].
@@ -33,30 +33,26 @@ Qed.
 Print Assumptions C16_tail.
 
 (* ---- positive offsets, merged reads included: for 1..49 sources (journals through the range iterator or in-memory
-   sources, any order, ties, unsorted) with any WHERE filter, POSITION head OFFSET k returns the accepted events of
-   the k-fold step of the merged stream L; when the first event of L passes the filter (or there is no filter)
-   this is exactly "skip the first k matching events". In general the first step of Offset consumes the head of L
-   whether it matches or not (crsr.Offset starts with Next without a settling Get). *)
+   sources, any order, ties, unsorted) with any WHERE filter, POSITION head OFFSET k returns the forward read of the
+   same cursor without its first k events ("skip the first k matching events"), for every k and every page limit.
+   (crsr.Offset settles on the current event with a Get before it steps.) *)
 Theorem C16_head : forall (srcs : list (nat * leaf)) (f : option flt) (k limit fuel : nat),
   srcs <> [] -> (length srcs < merge_limit)%nat -> Forall (fun s => fresh_leaf (snd s)) srcs ->
   exists c, new_cursor srcs f PHead = Some c /\
     let L := content leaf_rest false (cu_tree c) in
     ((length L < fuel)%nat ->
-     exists c1 ps1 c2 ps2,
-       query fuel c 0 (length L) = Some (c1, filter (acc f) L, ps1) /\
-       query fuel c (Z.of_nat (S k)) limit = Some (c2, firstn limit (skipn k (filter (acc f) (tl L))), ps2) /\
-       (settled_list f L -> skipn k (filter (acc f) (tl L)) = skipn (S k) (filter (acc f) L))).
+     exists c1 ps1 c2 ps2 all,
+       query fuel c 0 (length L) = Some (c1, all, ps1) /\
+       query fuel c (Z.of_nat k) limit = Some (c2, firstn limit (skipn k all), ps2)).
 Proof.
   intros srcs f k limit fuel N Hl F.
   destruct (new_cursor_cinv srcs f PHead N Hl F I) as (c & E & _ & Inv & _). exists c. split; [exact E|]. cbv zeta. intros Hf.
   destruct (query_positive leaf_rest (leaf_ok false) false f sett_l (leaf_get_spec false) (leaf_next_spec false) (sett_l_get false)
               c _ fuel 0 (length (content leaf_rest false (cu_tree c))) Inv Hf) as (c1 & ps1 & E1).
   destruct (query_positive leaf_rest (leaf_ok false) false f sett_l (leaf_get_spec false) (leaf_next_spec false) (sett_l_get false)
-              c _ fuel (S k) limit Inv Hf) as (c2 & ps2 & E2).
-  exists c1, ps1, c2, ps2. split; [|split].
-  - cbn [iter_step Z.of_nat] in E1. rewrite E1. do 2 f_equal. f_equal. apply firstn_all2. apply filter_length_le.
-  - rewrite E2, iter_step_general. reflexivity.
-  - intros S. rewrite <- iter_step_general, iter_step_settled by exact S. reflexivity.
+              c _ fuel k limit Inv Hf) as (c2 & ps2 & E2).
+  exists c1, ps1, c2, ps2, (filter (acc f) (content leaf_rest false (cu_tree c))). split; [|exact E2].
+  cbn [Z.of_nat skipn] in E1. rewrite E1. do 2 f_equal. f_equal. apply firstn_all2. apply filter_length_le.
 Qed.
 Print Assumptions C16_head.
 
@@ -75,61 +71,101 @@ Proof.
 Qed.
 Print Assumptions C16_inverse.
 
-(* ---- the full statements, and where the faithful model violates them *)
-Definition read (srcs : list srcspec) (f : option flt) (p : posspec) (offs : Z) : option (list item) :=
-  match model_query srcs f p offs 5000 with QOk xs _ => Some xs | _ => None end.
+(* ---- the statements over whole stores (any number of partitions, with or without RANGE), what is left of their
+   refutations, and what the repairs of the cursor bought *)
+(* read = what the checker's model_query (lib/CursorK.v) returns for the request, with a page limit that never cuts the
+   answer (fuel_of exceeds the number of stored events); None: refused (50 or more partitions) or no answer *)
+Definition read (srcs : list srcspec) (f : option flt) (p : posspec) (offs : Z) : option (list item) := store_read srcs f p offs.
+(* the same read with the cursor's variant flags explicit (model/Offset.v: settle = Offset starts with a settling Get,
+   drop = fiterator.SetBackward drops its buffer); the code is (true, true) *)
+Definition read_v (settle drop : bool) (srcs : list srcspec) (f : option flt) (p : posspec) (offs : Z) : option (list item) :=
+  match new_cursor (map src_leaf srcs) f p with
+  | None => None
+  | Some c => match query_v settle drop (fuel_of srcs) c offs (fuel_of srcs) with Some (_, xs, _) => Some xs | None => None end
+  end.
 Definition srcs_ok (srcs : list srcspec) : Prop :=
   srcs <> [] /\ Forall (fun s => match s with SJrn _ _ chunks => wf_journal (mk_journal chunks) | SMem _ _ => True end) srcs.
 
-Definition C16_tail_statement : Prop := forall srcs f (k : nat),
-  srcs_ok srcs -> read srcs f PTail (- Z.of_nat k) = option_map (lastn k) (read srcs f PHead 0).
-Definition C16_head_statement : Prop := forall srcs f (k : nat),
-  srcs_ok srcs -> read srcs f PHead (Z.of_nat k) = option_map (skipn k) (read srcs f PHead 0).
+Definition tail_statement (rd : list srcspec -> option flt -> posspec -> Z -> option (list item)) : Prop := forall srcs f (k : nat),
+  srcs_ok srcs -> rd srcs f PTail (- Z.of_nat k) = option_map (lastn k) (rd srcs f PHead 0).
+Definition head_statement (rd : list srcspec -> option flt -> posspec -> Z -> option (list item)) : Prop := forall srcs f (k : nat),
+  srcs_ok srcs -> rd srcs f PHead (Z.of_nat k) = option_map (skipn k) (rd srcs f PHead 0).
+Definition C16_tail_statement : Prop := tail_statement read.
+Definition C16_head_statement : Prop := head_statement read.
+
+(* `read` is the code's variant *)
+Theorem C16_read_is_code : forall srcs f p offs, read srcs f p offs = read_v code_settles_offset code_drops_buffer srcs f p offs.
+Proof.
+  intros srcs f p offs. unfold read, store_read, read_v, model_query. destruct (new_cursor (map src_leaf srcs) f p) as [c|]; [|reflexivity].
+  change (query (fuel_of srcs) c offs (fuel_of srcs)) with (query_v code_settles_offset code_drops_buffer (fuel_of srcs) c offs (fuel_of srcs)).
+  destruct (query_v code_settles_offset code_drops_buffer (fuel_of srcs) c offs (fuel_of srcs)) as [[[c1 xs] ps]|]; reflexivity.
+Qed.
+Print Assumptions C16_read_is_code.
+
+(* proved at this level: the head statement for every store read without RANGE (any number of partitions, in-memory or
+   stored, any WHERE filter, any k; plain_src: no RANGE, journals with increasing chunk ids and no empty chunk) ... *)
+Theorem C16_head_partial : forall srcs f (k : nat), srcs <> [] -> Forall plain_src srcs ->
+  read srcs f PHead (Z.of_nat k) = option_map (skipn k) (read srcs f PHead 0).
+Proof. exact head_store. Qed.
+Print Assumptions C16_head_partial.
+
+(* ... and the tail statement for one stored partition read without RANGE (any chunk layout, any WHERE filter, any k) *)
+Theorem C16_tail_partial : forall (g : nat) chunks f (k : nat), wf_journal (mk_journal chunks) ->
+  read [SJrn g false chunks] f PTail (- Z.of_nat k) = option_map (lastn k) (read [SJrn g false chunks] f PHead 0).
+Proof. exact tail_store. Qed.
+Print Assumptions C16_tail_partial.
 
 Definition wit_a : list (Z * list ev * (Z * Z)) := [(100, [(1, 1%nat); (2, 2%nat)], (0, MaxU32)); (110, [(3, 3%nat)], (0, MaxU32))].
 Definition wit_b : list (Z * list ev * (Z * Z)) := [(200, [(10, 10%nat)], (0, MaxU32)); (210, [(11, 11%nat); (12, 12%nat)], (0, MaxU32))].
 Lemma wit_ok r : srcs_ok [SJrn 0 r wit_a; SJrn 1 r wit_b].
 Proof. split; [discriminate|]. repeat constructor; cbn; unfold chunk_ok, c_cnt, MaxU64, MaxU32; cbn; lia. Qed.
+Definition wit_all : list item := [((1, 1%nat), 0%nat); ((2, 2%nat), 0%nat); ((3, 3%nat), 0%nat); ((10, 10%nat), 1%nat); ((11, 11%nat), 1%nat); ((12, 12%nat), 1%nat)].
 
-(* merged read with a WHERE filter (accepting everything): partitions a = [1,2 | 3], b = [10 | 11,12];
-   tail -4 returns nothing instead of [3,10,11,12] (fiterator's buffer survives SetBackward, iterateToPos steps over the target) *)
-Theorem C16_tail_merged_filter_refuted : exists srcs f k,
-  srcs_ok srcs /\ read srcs f PTail (- Z.of_nat k) <> option_map (lastn k) (read srcs f PHead 0).
+(* still refuted in general -- merged read of a partition that is not stored in time order: a = [5,1], b = [3]: forward
+   [3,5,1], tail -1 gives [3] (the backward mix of an unsorted source is not the reverse of the forward mix) *)
+Theorem C16_tail_merged_unsorted_refuted : ~ C16_tail_statement.
 Proof.
-  exists [SJrn 0 false wit_a; SJrn 1 false wit_b], (Some (mkFlt None MinTimestamp MaxTimestamp)), 4%nat.
-  split; [apply wit_ok|]. vm_compute. discriminate.
-Qed.
-Print Assumptions C16_tail_merged_filter_refuted.
-
-(* merged read with RANGE (partition iterator; windows cover everything): tail -4 returns [10,11,12]: the partition
-   iterator never reports the backward end, b yields its first record again *)
-Theorem C16_tail_merged_range_refuted : exists srcs f k,
-  srcs_ok srcs /\ read srcs f PTail (- Z.of_nat k) <> option_map (lastn k) (read srcs f PHead 0).
-Proof.
-  exists [SJrn 0 true wit_a; SJrn 1 true wit_b], (Some (mkFlt None 0 100)), 4%nat.
-  split; [apply wit_ok|]. vm_compute. discriminate.
-Qed.
-Print Assumptions C16_tail_merged_range_refuted.
-
-(* merged read of a partition that is not stored in time order: a = [5,1], b = [3]: forward [3,5,1], tail -1 gives [3] *)
-Theorem C16_tail_merged_unsorted_refuted : exists srcs f k,
-  srcs_ok srcs /\ read srcs f PTail (- Z.of_nat k) <> option_map (lastn k) (read srcs f PHead 0).
-Proof.
-  exists [SJrn 0 false [(100, [(5, 1%nat); (1, 2%nat)], (0, MaxU32))]; SJrn 1 false [(200, [(3, 101%nat)], (0, MaxU32))]], None, 1%nat.
-  split; [|vm_compute; discriminate].
-  split; [discriminate|]. repeat constructor; cbn; unfold chunk_ok, c_cnt, MaxU64, MaxU32; cbn; lia.
+  intros H.
+  specialize (H [SJrn 0 false [(100, [(5, 1%nat); (1, 2%nat)], (0, MaxU32))]; SJrn 1 false [(200, [(3, 101%nat)], (0, MaxU32))]] None 1%nat).
+  assert (Ok : srcs_ok [SJrn 0 false [(100, [(5, 1%nat); (1, 2%nat)], (0, MaxU32))]; SJrn 1 false [(200, [(3, 101%nat)], (0, MaxU32))]]).
+  { split; [discriminate|]. repeat constructor; cbn; unfold chunk_ok, c_cnt, MaxU64, MaxU32; cbn; lia. }
+  specialize (H Ok). vm_compute in H. discriminate H.
 Qed.
 Print Assumptions C16_tail_merged_unsorted_refuted.
 
-(* one partition [1,2,3] with a WHERE filter rejecting the first event: head +1 returns [2,3] instead of [3] *)
-Theorem C16_head_filter_refuted : exists srcs f k,
-  srcs_ok srcs /\ read srcs f PHead (Z.of_nat k) <> option_map (skipn k) (read srcs f PHead 0).
+(* the variant before the repair of fiterator.SetBackward (the buffer survives the switch): merged read with a WHERE filter
+   (accepting everything) over a = [1,2 | 3], b = [10 | 11,12]: tail -4 returns nothing instead of [3,10,11,12]
+   (iterateToPos steps over the target) *)
+Theorem C16_tail_merged_filter_kept_buffer_refuted : ~ tail_statement (read_v code_settles_offset false).
 Proof.
-  exists [SJrn 0 false [(100, [(1, 1%nat); (2, 2%nat); (3, 3%nat)], (0, MaxU32))]], (Some (mkFlt (Some [2%nat; 3%nat]) MinTimestamp MaxTimestamp)), 1%nat.
-  split; [|vm_compute; discriminate].
-  split; [discriminate|]. repeat constructor; cbn; unfold chunk_ok, c_cnt, MaxU64, MaxU32; cbn; lia.
+  intros H. specialize (H [SJrn 0 false wit_a; SJrn 1 false wit_b] (Some (mkFlt None MinTimestamp MaxTimestamp)) 4%nat (wit_ok false)).
+  vm_compute in H. discriminate H.
 Qed.
-Print Assumptions C16_head_filter_refuted.
+Print Assumptions C16_tail_merged_filter_kept_buffer_refuted.
+
+(* the variant before the repair of crsr.Offset (no settling Get): one partition [1,2,3] with a WHERE filter rejecting the
+   first event: head +1 returns [2,3] instead of [3] *)
+Theorem C16_head_unsettled_refuted : ~ head_statement (read_v false code_drops_buffer).
+Proof.
+  intros H.
+  assert (Ok : srcs_ok [SJrn 0 false [(100, [(1, 1%nat); (2, 2%nat); (3, 3%nat)], (0, MaxU32))]]).
+  { split; [discriminate|]. repeat constructor; cbn; unfold chunk_ok, c_cnt, MaxU64, MaxU32; cbn; lia. }
+  specialize (H _ (Some (mkFlt (Some [2%nat; 3%nat]) MinTimestamp MaxTimestamp)) 1%nat Ok). vm_compute in H. discriminate H.
+Qed.
+Print Assumptions C16_head_unsettled_refuted.
+
+(* the former witnesses on the code as it is: the merged reads with WHERE and with RANGE (partition iterator; windows cover
+   everything) return the last k events for every k up to past the first event (k = 7 > 6 events: the backward walk runs
+   every partition out of records and ends), and the filtered head +1 skips one matching event *)
+Theorem C16_former_witnesses : forall k : nat, (k <= 7)%nat ->
+  read [SJrn 0 false wit_a; SJrn 1 false wit_b] (Some (mkFlt None MinTimestamp MaxTimestamp)) PTail (- Z.of_nat k) = Some (lastn k wit_all) /\
+  read [SJrn 0 true wit_a; SJrn 1 true wit_b] (Some (mkFlt None 0 100)) PTail (- Z.of_nat k) = Some (lastn k wit_all) /\
+  read [SJrn 0 true wit_a; SJrn 1 true wit_b] (Some (mkFlt (Some [2; 3; 11]%nat) 0 100)) PTail (- Z.of_nat k) = Some (lastn k (filter (fun x => existsb (Nat.eqb (snd (fst x))) [2; 3; 11]%nat) wit_all)) /\
+  read [SJrn 0 false [(100, [(1, 1%nat); (2, 2%nat); (3, 3%nat)], (0, MaxU32))]] (Some (mkFlt (Some [2%nat; 3%nat]) MinTimestamp MaxTimestamp)) PHead 1 = Some [((3, 3%nat), 0%nat)].
+Proof.
+  intros k Hk. do 8 (destruct k as [|k]; [vm_compute; repeat split|]). lia.
+Qed.
+Print Assumptions C16_former_witnesses.
 
 (* non-vacuity: a three-chunk journal with a filter; tail -2 in the model gives the last two accepted events *)
 Example C16_nonvacuous :
